@@ -31,20 +31,20 @@ Qed.
 Lemma recv_packet_no_loss_read_until_proof :
   forall (P : Type) (sep : bytes) (limit : nat) (keep_end : bool) (dec : decoder P) (bufsize : nat),
     sep <> [] -> 0 < bufsize ->
-    forall ls,
+    forall (latching : bool) ls,
       let F := ru_framer sep limit keep_end dec in
-      let es := erun (copy_smachine F bufsize) false (einit (cinit F)) ls in
+      let es := erun (copy_smachine F bufsize) false latching (einit (cinit F)) ls in
       safe sep limit (delivered (sk es)) ->
       exists rest, fst (spec_events sep keep_end dec (delivered (sk es))) = events es ++ rest.
 Proof.
-  intros P sep limit keep_end dec bufsize Hsep Hb ls F es HG.
+  intros P sep limit keep_end dec bufsize Hsep Hb latching ls F es HG.
   pose proof (ru_consumer_ok_rel sep limit keep_end dec bufsize Hsep Hb) as OK0.
   assert (OK : consumer_ok_rel (to_machine (copy_smachine F bufsize)) (ru_spec sep keep_end dec)
                                (ru_G sep limit) (ru_R sep limit keep_end dec) (ru_D sep limit keep_end dec)).
   { eapply consumer_ok_rel_ext; [| |exact OK0].
     - intro c. reflexivity.
     - intros c a. apply copy_machine_split. }
-  destruct (recv_packet_no_loss_proof (copy_smachine F bufsize) false _ _ _ _ OK) with (c0 := cinit F) (ls := ls)
+  destruct (recv_packet_no_loss_proof (copy_smachine F bufsize) false latching _ _ _ _ OK) with (c0 := cinit F) (ls := ls)
     as (Hev & _).
   - intros c d c1 room HD Hroom. simpl in Hroom. inversion Hroom; subst. exact HD.
   - apply ru_R_init. exact Hsep.
